@@ -87,6 +87,78 @@ def coq_blocks(c):
     return "[" + "; ".join(items) + "]"
 
 
+def build_composed_driver(chk):
+    """OCaml driver of the COMPOSED model coq/e2eupd (update_file over the metadata area's reader and writer):
+    the dump/parse half of ocaml/metadata_driver.ml opened on the composed extraction + ocaml/e2eupd_driver_tail.ml."""
+    e2eupd = os.path.join(VERIF, "coq", "e2eupd")
+    mdir = os.path.join(CACHE, "ocaml", "e2eupd")
+    os.makedirs(mdir, exist_ok=True)
+    for f in ("e2eupd_model.ml", "e2eupd_model.mli"):
+        if not os.path.exists(os.path.join(e2eupd, f)):
+            chk.broken_tie("composed-model-extraction", "coq/e2eupd/%s was not produced by the Coq build" % f)
+            return None
+        shutil.copy(os.path.join(e2eupd, f), mdir)
+    head = open(os.path.join(VERIF, "ocaml", "metadata_driver.ml")).read()
+    cut = head.find("(* ---- observations *)")
+    if cut < 0 or "open Metadata_model" not in head:
+        chk.broken_tie("composed-model-driver", "ocaml/metadata_driver.ml lost the markers the composed driver is assembled from")
+        return None
+    src = head[:cut].replace("open Metadata_model", "open E2eupd_model") + open(os.path.join(VERIF, "ocaml", "e2eupd_driver_tail.ml")).read()
+    open(os.path.join(mdir, "e2eupd_driver.ml"), "w").write(src)
+    okb, exe, bout = vlib.ocaml_build(mdir, ["e2eupd_model.mli", "e2eupd_model.ml", "e2eupd_driver.ml"], "e2eupd_driver")
+    if not okb:
+        chk.broken_tie("ocaml-build:composed-model", bout)
+        return None
+    return exe
+
+
+def composed_tie(chk, fulls, viol_specs):
+    """Whole-file correspondence of the composed model: for every small step the harness performed, the extracted
+    `update_file` over the metadata area's real reader/writer is given the file as it was and the block list the
+    callback left (typed dump), and must return the same verdict, the same bytes in the original and the same bytes
+    in the rebuilt file as the implementation.  A difference on an input where the implementation satisfied the
+    property is a broken tie of the theorems C10_real_codec_*, reported with the input."""
+    out = {"composed_model_steps": 0, "composed_model_inplace": 0, "composed_model_rebuilt": 0, "composed_model_errors": 0,
+           "composed_model_mismatches": 0}
+    if not fulls:
+        return out
+    exe = build_composed_driver(chk)
+    if not exe:
+        return out
+    lines = ["upd %d %s %s" % (f["start"], f["file"] or ".", "!" if f["edited"] is None else (f["edited"] or "~")) for f in fulls]
+    rc, mout = sh("ulimit -s unlimited 2>/dev/null || ulimit -s 1000000; exec %s" % exe, stdin="\n".join(lines) + "\n", timeout=1500)
+    mlines = [x.strip() for x in mout.split("\n") if x.strip()]
+    if rc != 0 or len(mlines) != len(fulls):
+        chk.broken_tie("ocaml-run:composed-model", "rc=%d, %d answers for %d cases: %s" % (rc, len(mlines), len(fulls), mout[-1500:]))
+        return out
+    for f, ml in zip(fulls, mlines):
+        out["composed_model_steps"] += 1
+        res = f["res"]
+        cls = res if res.startswith("ok:") else ("panic" if res == "panic" else "err")
+        exp = "%s orig=%s rebuilt=%s" % (cls, f["orig"] or ".", (f["rebuilt"] or ".") if cls == "ok:true" else "-")
+        got = ml
+        if cls != "ok:true" and got.endswith("rebuilt=."):
+            got = got[:-1] + "-"
+        out["composed_model_" + {"ok:false": "inplace", "ok:true": "rebuilt"}.get(cls, "errors")] += 1
+        if cls != "ok:true" and f["rebuilt"]:
+            continue  # bytes in the rebuilt writer without Ok(true): the searcher reports that itself
+        if got != exp:
+            out["composed_model_mismatches"] += 1
+            if (f["spec"], f["step"]) in viol_specs:
+                continue
+            def first_diff(a, b):
+                n = next((i for i, (x, y) in enumerate(zip(a, b)) if x != y), min(len(a), len(b)))
+                return n
+            chk.violation("tie:composed-model-update",
+                          "the composed model (coq/e2eupd: update_file over the metadata area's reader/writer) and the implementation differ on spec %r step %d: implementation %s, model %s (first difference at character %d of the observation)" % (
+                              f["spec"], f["step"], exp[:60], got[:60], first_diff(exp, got)),
+                          {"spec": f["spec"], "step": f["step"], "file_hex": f["file"], "edited_dump": f["edited"], "implementation": exp,
+                           "model": got, "replay_cmd": "c10 --spec \"%s\"" % f["spec"]})
+            if out["composed_model_mismatches"] > 3:
+                break
+    return out
+
+
 def run(chk):
     chk.assumptions = [
         "C11 supplies the two hypotheses of the C10 theorems for the real block codec: a block's reported size is the number of body bytes it writes, and read_blocks inverts write_blocks (coq/updateio/Instance.v shows they are satisfiable by a concrete codec with the real header layout)",
@@ -108,7 +180,7 @@ def run(chk):
             return
     finally:
         shutil.rmtree(tmp, ignore_errors=True)
-    cases, viols, stat, samples, notes = [], [], {}, [], []
+    cases, viols, stat, samples, notes, fulls = [], [], {}, [], [], []
     for ln in out.splitlines():
         if not ln.startswith("{"):
             continue
@@ -116,6 +188,8 @@ def run(chk):
         t = d.get("t")
         if t == "case":
             cases.append(d)
+        elif t == "full":
+            fulls.append(d)
         elif t == "viol":
             viols.append(d)
         elif t == "stat":
@@ -184,6 +258,8 @@ def run(chk):
                                   {"coq_output": vout[-3000:], "first_difference": None if bad is None else {"case": sample[bad], "coq": got[bad], "impl": exp[bad]},
                                    "n_got": len(got), "n_expected": len(exp)})
 
+    comp = composed_tie(chk, fulls, viol_specs) if proof_ok else {}
+    chk.coverage.update(comp)
     chk.coverage.update({
         "evaluations": len(cases),
         "distinct_nontrivial": len(distinct),
